@@ -20,6 +20,7 @@ def checkers_for(prop, opts):
         'C15': [checkers.C15Surfaces],
         'C16': [checkers.C16Serialise],
         'C18': [checkers.C18Unchecked],
+        'C17': [checkers.C17Write],
     }
     for k in table.get(prop, []):
         c.append(k())
@@ -675,3 +676,98 @@ def wl_C18(rng, w, cfg, index):
                 yield {'op': 'TO_STRING', 'a': 0, 'p': p, 'ic': False}
         yield {'op': 'TO_STRING', 'a': 0, 'p': ['d0'], 'ic': False}
     return program(), {'elements': [elem]}
+
+
+# ---------------------------------------------------------------------------------- C17: write() under faults
+def prior_states(rng):
+    old = ('<?xml version="1.0" encoding="UTF-8" standalone="no"?>\n<score-partwise version="4.0">\n  <part-list>\n'
+           '    <score-part id="P1">\n      <part-name>Old</part-name>\n    </score-part>\n  </part-list>\n'
+           '  <part id="P1">\n    <measure number="1" />\n  </part>\n</score-partwise>\n').encode('utf-8')
+    return [('absent', None), ('empty', b''), ('old-score', old), ('bytes', bytes(rng.randrange(256) for _ in range(40)))]
+
+
+def wl_C17(rng, w, cfg, index):
+    from . import docgen
+    kit = Kit(rng, w, cfg)
+    nonascii = rng.random() < 0.5
+    size = rng.randint(5, cfg.get('max_size', 40))
+
+    def program():
+        tree = None
+        for _ in range(6):
+            tree = docgen.gen_score(rng, size=size, nonascii=nonascii)
+            if tree is None:
+                continue
+            yield {'op': 'NEW', 'a': 0, 'doc': 'd0', 'c': tree}
+            if 'd0' in w.docs:
+                break
+            w.count('c17.doc_rejected_by_library')
+        root = w.docs.get('d0')
+        if root is None:
+            return
+        yield {'op': 'TO_STRING', 'a': 0, 'p': ['d0'], 'ic': False}
+        if w.events[-1]['r'] != 'ok':
+            w.count('c17.doc_incomplete_for_library')
+            return
+        w.count('c17.documents')
+        text_has_nonascii = any(ord(c) > 127 for c in w.text)
+        priors = prior_states(rng)
+        encs = ['utf-8', 'ascii', 'latin-1', 'cp1252']
+        n = 0
+
+        def case(label, ops, prior=None, enc=None):
+            nonlocal n
+            n += 1
+            path = 'out%d.xml' % n
+            pre = []
+            if enc:
+                pre.append({'op': 'FAULT', 'kind': 'fs.encoding', 'params': {'encoding': enc}})
+            pk, pb = prior if prior else rng.choice(priors)
+            if pb is not None:
+                pre.append({'op': 'FAULT', 'kind': 'fs.prior', 'params': {'path': path, 'hex': pb.hex()}})
+            body = [dict(o, path=path) if o['op'] == 'WRITE' else o for o in ops]
+            return {'case': pre + body + [{'op': 'FSSTATE', 'path': path}], 'label': label + '/' + pk + '/' + (enc or 'utf-8')}
+
+        W = {'op': 'WRITE', 'a': 0, 'doc': 'd0', 'path': '?', 'ic': False}
+        # 1. fault-free write under every default encoding and every prior state
+        for enc in encs:
+            for pr in priors:
+                yield case('plain', [dict(W)], pr, enc)
+        # 2. break.node_k for EVERY node k and each kind of requirement, then write
+        nodes = [(w.path_of(nd), nd) for nd in root.walk()]
+        for path, nd in nodes:
+            m = spec.model_for_element(nd.name)
+            if m is not None and nd.xsd_check:
+                ms = [c.name for c in nd.children]
+                for i, c in enumerate(nd.children):
+                    rest = ms[:i] + ms[i + 1:]
+                    if not m.accepts(rest):
+                        w.count('fault.break.node_k.child')
+                        yield case('break-child', [{'op': 'REMOVE', 'a': 0, 'p': path, 'i': i}, dict(W)],
+                                   enc=rng.choice(encs) if rng.random() < 0.3 else None)
+                        break
+            for a, d in spec.attributes_of_element(nd.name).items():
+                if d['required'] and a in nd.attrs and nd.xsd_check:
+                    w.count('fault.break.node_k.attribute')
+                    yield case('break-attr', [{'op': 'ATTR_SET', 'a': 0, 'p': path, 'name': spec.py_attr_name(a), 'value': None},
+                                              dict(W)], enc=rng.choice(encs) if rng.random() < 0.3 else None)
+                    break
+        # 3. asynchronous exception at the k-th library function entry during write()
+        for k in sorted({1, 2, 3, 5, 8} | {rng.randint(1, 4000) for _ in range(cfg.get('async_points', 6))}):
+            yield case('async@%d' % k, [{'op': 'FAULT', 'kind': 'async.exc', 'params': {'k': k}}, dict(W)])
+        # 4. file-system errors at open, at each write call, at close; special destinations
+        for kind, params in (('fs.open_err', {'errno': 5}), ('fs.write_err', {'nth': 1, 'errno': 28}),
+                             ('fs.write_err', {'nth': 2, 'errno': 5}), ('fs.short_write', {'nth': 2, 'keep': 17}),
+                             ('fs.short_write', {'nth': 1, 'keep': 9}), ('fs.close_err', {}), ('fs.enospc', {'room': 60})):
+            yield case(kind, [{'op': 'FAULT', 'kind': kind, 'params': params}, dict(W)])
+        nn = n + 1
+        yield case('fs.readonly', [{'op': 'FAULT', 'kind': 'fs.readonly', 'params': {'path': 'out%d.xml' % nn}}, dict(W)], priors[2])
+        nn = n + 1
+        yield case('fs.is_dir', [{'op': 'FAULT', 'kind': 'fs.is_dir', 'params': {'path': 'out%d.xml' % nn}}, dict(W)], priors[0])
+        # 5. a broken node together with an injected encoding and an old score in place (the combination
+        #    the property is about: the user's previous file is at stake)
+        if nodes:
+            path, nd = rng.choice(nodes)
+            if nd.children and nd.xsd_check:
+                yield case('break+old', [{'op': 'REMOVE', 'a': 0, 'p': path, 'i': 0}, dict(W)], priors[2], rng.choice(encs))
+    return program(), {'nonascii': nonascii, 'size': size}
